@@ -29,7 +29,8 @@ BOUND = (
     "random-walk market, 4-9 week range; configuration cycling with i mod 4 through (0) dynamic universe in which two "
     "assets enter at the same instant + top-N momentum, (1) SMA crossover, (2) inverse volatility on a dynamic "
     "universe, (3) fixed weights; weekly (any weekday) / daily / end_of_month schedules, long-only or long/short, "
-    "zero or percentage fees, burn-in on 1 case in 3. Per case: run A and run B with fresh objects; run C, then an "
+    "zero or percentage fees, burn-in on 1 case in 3. Per case: the same configuration on a different market (same "
+    "symbols and dates, own directory and objects), then run A and run B with fresh objects; run C, then an "
     "unrelated session plus 200 ad-hoc bid/ask queries, then run D, all on ONE CSVDailyBarDataSource object; "
     "fresh interpreters with PYTHONHASHSEED = 0..k each re-running the case. Compared bit for bit: history events "
     "of type asset_transaction (dt, description, debit, credit, balance) and the recorded transactions (time, "
@@ -138,6 +139,11 @@ def in_process(case):
     cfg = case["cfg"]
     with tempfile.TemporaryDirectory(prefix="c18_") as d:
         M.write_market(d, market)
+        # first a session over DIFFERENT prices for the same symbols and dates, with its own directory and objects:
+        # runs A-D all happen in a process that has already served other data; the fresh interpreters have not
+        with tempfile.TemporaryDirectory(prefix="c18x_") as d2:
+            M.write_market(d2, M.gen_market(dict(case["market"], seed=case["market"]["seed"] + 1)))
+            M.run_session(d2, cfg)
         a = parts(M.run_session(d, cfg))
         b = parts(M.run_session(d, cfg))
         shared = M.make_data_source(d, cfg["symbols"])
@@ -219,7 +225,13 @@ def _brief(order):
 
 def _worker(args):
     seed, lo, hi, k = args
-    return check_cases([gen_case(seed, i) for i in range(lo, hi)], k)
+    cases = [gen_case(seed, i) for i in range(lo, hi)]
+    try:
+        return check_cases(cases, k)
+    except Exception as exc:  # noqa: BLE001  (never raise out of run(): report it against every clause)
+        why = "check could not be evaluated: %s: %s" % (type(exc).__name__, exc)
+        return [{"case": dict(case, k=k), "results": [(c, False, why, None) for c in CLAUSES], "n": [0, 0, 0],
+                 "error": why} for case in cases]
 
 
 def run(tier="quick", seed=0, budget_s=60.0, jobs=1):
@@ -232,7 +244,7 @@ def run(tier="quick", seed=0, budget_s=60.0, jobs=1):
     def absorb(recs):
         for rec in recs:
             counts["ev"] += 1
-            counts["runs"] += 5 + (k + 1)
+            counts["runs"] += 6 + (k + 1)
             for clause, ok, o, e in rec["results"]:
                 tally.check(clause, ok, rec["case"], o, e, size=M.case_size(rec["case"]))
             key = json.dumps(rec["case"], sort_keys=True)
@@ -257,19 +269,19 @@ def run(tier="quick", seed=0, budget_s=60.0, jobs=1):
     else:
         chunk = 5
         tasks = [(seed, lo, min(n, lo + chunk), k) for lo in range(0, n, chunk)]
-        step = max(1, jobs // 2)            # every worker also keeps k+1 child interpreters busy
-        for s in range(0, len(tasks), step):
-            if budget.left() < 10.0 and s > 0:
+        done = 0                            # every worker also keeps k+1 child interpreters busy
+        for recs in M.pool_iter(_worker, tasks, max(1, (jobs + 1) // 2)):
+            absorb(recs)
+            done += 1
+            if budget.left() < 10.0 and done < len(tasks):
                 done_all = False
                 break
-            for recs in M.pool_map(_worker, tasks[s:s + step], step):
-                absorb(recs)
     return {
         "evaluations": counts["ev"], "distinct_nontrivial": counts["nt"],
-        "rule": ("case i = gen_case(seed, i) (see BOUND); one evaluation = one case = %d real sessions (A, B, C, "
+        "rule": ("case i = gen_case(seed, i) (see BOUND); one evaluation = one case = %d real sessions (decoy, A, B, C, "
                  "unrelated, D in process + %d fresh interpreters), %d sessions in total; distinct = distinct (market "
                  "spec, configuration) JSON; non-trivial = run A completed with at least one fill and one allocation "
-                 "row. %s" % (5 + k + 1, k + 1, counts["runs"],
+                 "row. %s" % (6 + k + 1, k + 1, counts["runs"],
                               "all %d cases of the tier ran" % n if done_all else "stopped early on budget_s")),
         "samples": samples, "exhaustive": False, "clauses": tally.clauses,
         "n_failures": tally.n_failures, "failures": tally.kept_failures(),
